@@ -293,6 +293,10 @@ class MessageHeader:
         return self.as_packed(Packer()).get_buffer()
 
     def as_packed(self, packer: Packer) -> Packer:
+        if self.length > 0xffffff:
+            raise ValueError(
+                f"message length {self.length} does not fit in the 24-bit "
+                f"Message Length field")
         packer.pack_uint((self.version << 24) | self.length)
         packer.pack_uint((self.command_flags << 24) | self.command_code)
         packer.pack_uint(self.application_id)
